@@ -141,7 +141,7 @@ func (e *env) clone() *env {
 
 func trivial(x *expr) bool {
 	switch x.op {
-	case "num", "var", "field", "ver", "true", "false", "sev", "inum", "obj":
+	case "num", "var", "field", "ver", "true", "false", "sev", "inum", "obj", "haserr":
 		return true
 	}
 	return false
@@ -225,6 +225,9 @@ func (e *env) selector(x ast.Expr) *expr {
 	case *ast.Ident:
 		if v.Name == e.recv && e.recv != "" {
 			return &expr{k: kObj, op: "obj", s: e.rtype}
+		}
+		if l, ok := e.locals[v.Name]; ok && (l.op == "field" || l.op == "ver" || l.op == "obj") {
+			return l // a parameter of a helper that was handed a metric field (or the receiver) of the object
 		}
 	case *ast.SelectorExpr:
 		base := e.selector(v.X)
@@ -368,6 +371,28 @@ func (e *env) binary(v *ast.BinaryExpr) *expr {
 				}
 			}
 			fail("integer remainder of an unknown shape")
+		}
+	}
+	if v.Op == token.EQL || v.Op == token.NEQ {
+		if id, ok := v.Y.(*ast.Ident); ok && id.Name == "nil" {
+			if lid, ok := v.X.(*ast.Ident); ok {
+				if l, ok := e.locals[lid.Name]; ok && l.op == "haserr" {
+					if v.Op == token.NEQ {
+						return l
+					}
+					return &expr{k: kBool, op: "not", a: []*expr{l}}
+				}
+			}
+			if c, ok := v.X.(*ast.CallExpr); ok {
+				r := e.eval(c)
+				if r.op == "haserr" {
+					if v.Op == token.NEQ {
+						return r
+					}
+					return &expr{k: kBool, op: "not", a: []*expr{r}}
+				}
+			}
+			fail("comparison with nil")
 		}
 	}
 	a, b := e.eval(v.X), e.eval(v.Y)
@@ -1007,18 +1032,70 @@ func topo(defs []outDef, ver int) []outDef {
 	return out
 }
 
+// refDefs reads the reference translation (the translator's output on the pinned tree): namespace -> definition name -> text
+func refDefs(path string) map[string]map[string]outDef {
+	res := map[string]map[string]outDef{}
+	b, err := os.ReadFile(path)
+	if err != nil {
+		return res
+	}
+	ns := ""
+	var cur *outDef
+	flush := func() {
+		if cur != nil {
+			cur.body = strings.TrimRight(cur.body, "\n")
+			res[ns][cur.name] = *cur
+			cur = nil
+		}
+	}
+	for _, line := range strings.Split(string(b), "\n") {
+		switch {
+		case strings.HasPrefix(line, "namespace CvssVerif.Gen."):
+			ns = strings.TrimPrefix(line, "namespace CvssVerif.Gen.")
+			res[ns] = map[string]outDef{}
+		case strings.HasPrefix(line, "end CvssVerif.Gen."):
+			flush()
+		case strings.HasPrefix(line, "def "):
+			flush()
+			rest := strings.TrimPrefix(line, "def ")
+			name := rest
+			sig := ""
+			if i := strings.IndexAny(rest, " "); i >= 0 {
+				name, sig = rest[:i], rest[i:]
+			}
+			sig = strings.TrimSuffix(sig, " :=")
+			cur = &outDef{name: name, sig: sig}
+		default:
+			if cur != nil {
+				if cur.body == "" {
+					cur.body = strings.TrimPrefix(line, "  ")
+				} else {
+					cur.body += "\n" + line
+				}
+			}
+		}
+	}
+	return res
+}
+
 func main() {
-	if len(os.Args) != 3 {
-		fmt.Fprintln(os.Stderr, "usage: formulas <repo> <out.lean>")
+	if len(os.Args) != 3 && len(os.Args) != 4 {
+		fmt.Fprintln(os.Stderr, "usage: formulas <repo> <out.lean> [reference.lean]")
 		os.Exit(2)
 	}
 	repo, out := os.Args[1], os.Args[2]
+	ref := map[string]map[string]outDef{}
+	if len(os.Args) == 4 {
+		ref = refDefs(os.Args[3])
+	}
 	var b strings.Builder
 	b.WriteString("/- GENERATED on every run by go/formulas from the source text of the score and severity functions of\n" +
 		"   /repo/v3/metric and /repo/v2/metric — do not edit.  Constants are the bits of the correctly rounded literal;\n" +
 		"   the per-metric methods (Value, IsChanged, IsEmpty, GetError) are the model's primitives. -/\n" +
 		"import CvssVerif.Model.V3\nimport CvssVerif.Model.V2\n\n")
 	n := 0
+	var notUnderstoodFns []string
+	fatal := false
 	for _, pv := range []struct {
 		ver int
 		dir string
@@ -1026,9 +1103,31 @@ func main() {
 		dir := filepath.Join(repo, pv.dir)
 		p := load(dir, pv.ver)
 		defs := translate(p, dir)
+		ns := fmt.Sprintf("F%d", pv.ver)
+		have := map[string]bool{}
+		for _, d := range defs {
+			have[d.name] = true
+		}
+		// a function outside the translator's subset keeps the reference translation (so that the others can still be
+		// checked) and is listed as not understood
+		for _, nm := range append(append([]string{}, namedPlain[pv.ver]...), namedMeth[pv.ver]...) {
+			dn := defName(nm)
+			if !have[dn] {
+				notUnderstoodFns = append(notUnderstoodFns, ns+"."+dn)
+				if rd, ok := ref[ns][dn]; ok {
+					defs = append(defs, rd)
+				} else {
+					fatal = true
+				}
+			}
+		}
 		fmt.Fprintf(&b, "namespace CvssVerif.Gen.F%d\nopen CvssVerif CvssVerif.F64 CvssVerif.V%d CvssVerif.V%d.M%d\n\n", pv.ver, pv.ver, pv.ver, pv.ver)
 		// emit in dependency order (a cycle is "not understood")
+		before := len(problems)
 		defs = topo(defs, pv.ver)
+		if len(problems) != before {
+			fatal = true
+		}
 		for _, d := range defs {
 			fmt.Fprintf(&b, "def %s%s :=\n  %s\n\n", d.name, d.sig, d.body)
 			n++
@@ -1036,7 +1135,7 @@ func main() {
 		fmt.Fprintf(&b, "end CvssVerif.Gen.F%d\n\n", pv.ver)
 	}
 	sort.Strings(problems)
-	if len(problems) == 0 {
+	if !fatal {
 		if err := os.WriteFile(out, []byte(b.String()), 0o644); err != nil {
 			fmt.Fprintln(os.Stderr, err)
 			os.Exit(1)
@@ -1045,5 +1144,7 @@ func main() {
 	for _, p := range problems {
 		fmt.Println("problem:", p)
 	}
-	fmt.Printf("formulas: definitions=%d problems=%d\n", n, len(problems))
+	sort.Strings(notUnderstoodFns)
+	fmt.Printf("not-understood: %s\n", strings.Join(notUnderstoodFns, " "))
+	fmt.Printf("formulas: definitions=%d problems=%d written=%v\n", n, len(problems), !fatal)
 }
